@@ -1,7 +1,25 @@
 (* Resp/Check.v — boolean case checkers for the correspondence runs of
    harness/props/C07.py.  Each case carries what was observed on the
    implementation; the model recomputes it under vm_compute. *)
-From PV Require Import Base.Prelude Base.Decimal Resp.Grammar.
+From PV Require Import Base.Prelude Base.Decimal Resp.Grammar Resp.Printer Resp.Wf.
 
 (* (bytes, verdict of the independent Python recogniser) *)
 Definition chk_wf (c : bytes * bool) : bool := Bool.eqb (wf_response (fst c)) (snd c).
+
+(* (response AST, bytes(resp) of the real object built from the same values) *)
+Definition chk_print (c : resp * bytes) : bool := bytes_eqb (print_resp (fst c)) (snd c).
+
+(* the same for ASTs that are meant to satisfy the hypotheses of C07: they do,
+   and (an instance of the theorem) the recogniser accepts the bytes *)
+Definition chk_print_wf (c : resp * bytes) : bool :=
+  bytes_eqb (print_resp (fst c)) (snd c) && wf_resp (fst c) && wf_response (snd c).
+
+(* (the responses one connection wrote, converted from the live objects; every
+   byte the connection wrote) *)
+Definition chk_stream (c : list resp * bytes) : bool :=
+  bytes_eqb (print_stream (fst c)) (snd c) && forallb wf_resp (fst c).
+
+(* leaf functions on their own *)
+Definition chk_build (c : pyval * bytes) : bool := bytes_eqb (pstr (fst c)) (snd c).
+Definition chk_mailbox (c : list N * bytes) : bool := bytes_eqb (print_mailbox (fst c)) (snd c).
+Definition chk_datetime (c : datetime * bytes) : bool := bytes_eqb (print_datetime (fst c)) (snd c).
